@@ -91,7 +91,7 @@ def replay(pyhf, backend, precision, chunk):
 
     def add(key, detail, tags):
         if len(out["findings"]) < 40:
-            out["findings"].append((key, detail, tags))
+            out["findings"].append((key, dict(detail, backend=backend, prec=precision), tags))
 
     def T(v):
         return tl.astensor([v])
